@@ -5,7 +5,7 @@
 #undef HAVE_NETTLE_BASE64_H
 #define HAVE_NETTLE_BASE64_H 0
 #include "base64.h"
-#include "/repo/lib/base64.cc"
+#include "lib/base64.cc"   // (resolved through -I<repository root>: the tree being analysed, not a fixed path)
 #include "common.h"
 
 #ifdef VF_THOROUGH
@@ -94,6 +94,43 @@ extern "C" void c36_decode_arbitrary(void)
     if (ok) {
         vf_assert(dl == rl, "decoded length");
         for (unsigned i = 0; i < rl; ++i) vf_assert(dec[i] == ref[i], "decoded bytes");
+        vf_reach("accepted");
+    } else
+        vf_reach("rejected");
+    WITNESS_POINT();
+}
+
+// Streaming use of one decode context: two base64_decode_update() calls with chunk lengths 1..3 each (so the second call starts
+// with up to 6 buffered bits), each writing into a heap block of exactly BASE64_DECODE_LENGTH(chunk length) bytes -- the size the
+// API documents as sufficient for one call; the concatenated output must equal the single-shot reference decoding
+#ifdef VF_THOROUGH
+#define STREAMN 5
+#else
+#define STREAMN 4
+#endif
+extern "C" void c36_decode_stream(void)
+{
+    vf_quiet();
+    const unsigned n1 = (unsigned)vf_concretize(vf_range(1, 3, "len1")), n2 = (unsigned)vf_concretize(vf_range(1, 3, "len2"));
+    vf_assume(n1 + n2 <= STREAMN);   // (6 arbitrary bytes = 10^5 paths)
+    char in[6];
+    for (unsigned i = 0; i < n1 + n2; ++i) in[i] = (char)vf_nondet_u8("byte");
+    uint8_t *d1 = (uint8_t *)xmalloc(BASE64_DECODE_LENGTH(n1) ? BASE64_DECODE_LENGTH(n1) : 1);
+    uint8_t *d2 = (uint8_t *)xmalloc(BASE64_DECODE_LENGTH(n2) ? BASE64_DECODE_LENGTH(n2) : 1);
+    struct base64_decode_ctx dctx; base64_decode_init(&dctx);
+    size_t l1 = 0, l2 = 0;
+    const int u1 = base64_decode_update(&dctx, &l1, d1, n1, in);
+    vf_assert(l1 <= BASE64_DECODE_LENGTH(n1), "never reports more output than BASE64_DECODE_LENGTH");
+    const int u2 = u1 && base64_decode_update(&dctx, &l2, d2, n2, in + n1);
+    if (u1) vf_assert(l2 <= BASE64_DECODE_LENGTH(n2), "never reports more output than BASE64_DECODE_LENGTH");
+    const int ok = u1 && u2 && base64_decode_final(&dctx);
+    unsigned char ref[8]; unsigned rl = 0;
+    const int rok = refDecode((const unsigned char *)in, n1 + n2, ref, &rl);
+    vf_observe("ok", ok);
+    vf_assert(ok == rok, "accepts exactly the well-formed encodings");
+    if (ok) {
+        vf_assert(l1 + l2 == rl, "decoded length");
+        for (unsigned i = 0; i < rl; ++i) vf_assert((i < l1 ? d1[i] : d2[i - l1]) == ref[i], "decoded bytes");
         vf_reach("accepted");
     } else
         vf_reach("rejected");
